@@ -17,6 +17,7 @@ theorem carries the exact excluded guard.
 import LedgerModel.Lemmas.Print
 import LedgerModel.Lemmas.Equity
 import LedgerModel.Lemmas.PrintToy
+import LedgerModel.Lemmas.PrintInst
 import LedgerModel.Model.PrintPinned
 import LedgerModel.Gen.Print
 
@@ -52,13 +53,13 @@ def C06.sourceLayout : Layout :=
 /-- Re-reading the printed lines of any well-formed finalised transaction succeeds and
     yields `norm x`. -/
 theorem C06.parse_render (c : Codec) (hc : c.Lawful) (L : Layout) (x : PXact)
-    (hx : xactOk c.toAmtCodec x = true) :
+    (hx : xactOk c x = true) :
     parseXactText c (renderXact c L x) = .ok (norm c L x) :=
   Print.parse_render c hc L x hx
 
 /-- the same for the widths found in the source, on `String` lines. -/
 theorem C06.parse_render_string (c : Codec) (hc : c.Lawful) (x : PXact)
-    (hx : xactOk c.toAmtCodec x = true) :
+    (hx : xactOk c x = true) :
     parseXactTextS c (renderXactS c C06.sourceLayout x) = .ok (norm c C06.sourceLayout x) := by
   unfold parseXactTextS renderXactS
   rw [List.map_map]
@@ -124,7 +125,7 @@ theorem C06.cost_preserved (c : AmtCodec) (L : Layout) (xs : ItemState) (w : Nat
 /-- FULL statement (false for the pinned code): printing the re-read transaction
     reproduces the text byte for byte. -/
 def C06.RenderFixpointFull (L : Layout) : Prop :=
-  ∀ (c : Codec), c.Lawful → ∀ (x : PXact), xactOk c.toAmtCodec x = true →
+  ∀ (c : Codec), c.Lawful → ∀ (x : PXact), xactOk c x = true →
     renderXact c L (norm c L x) = renderXact c L x
 
 /-- it holds whenever print did not write padding blanks after an elided second amount
@@ -132,13 +133,13 @@ def C06.RenderFixpointFull (L : Layout) : Prop :=
     two-posting transaction whose second account name is within one column of the
     account width). -/
 theorem C06.render_fixpoint_partial (c : Codec) (hc : c.Lawful) (L : Layout) (x : PXact)
-    (hx : xactOk c.toAmtCodec x = true) (hpad : trailingPad L x = false) :
+    (hx : xactOk c x = true) (hpad : trailingPad L x = false) :
     renderXact c L (norm c L x) = renderXact c L x :=
   Print.render_fixpoint c hc L x hx hpad
 
 /-- and so print ∘ read ∘ print = print on such transactions. -/
 theorem C06.print_read_print (c : Codec) (hc : c.Lawful) (L : Layout) (x : PXact)
-    (hx : xactOk c.toAmtCodec x = true) (hpad : trailingPad L x = false) :
+    (hx : xactOk c x = true) (hpad : trailingPad L x = false) :
     (parseXactText c (renderXact c L x)).map (renderXact c L) = .ok (renderXact c L x) := by
   rw [Print.parse_render c hc L x hx]
   simp [Except.map, Print.render_fixpoint c hc L x hx hpad]
@@ -184,7 +185,7 @@ def C06.statesInherited (x : PXact) : Prop := x.state ≠ 0 → ∀ p ∈ x.post
 
 /-- FULL statement (false for the pinned code): every posting keeps its state. -/
 def C06.StateMarksFull (L : Layout) : Prop :=
-  ∀ (c : Codec), c.Lawful → ∀ (x : PXact), xactOk c.toAmtCodec x = true → C06.statesInherited x →
+  ∀ (c : Codec), c.Lawful → ∀ (x : PXact), xactOk c x = true → C06.statesInherited x →
     ∀ y, parseXactText c (renderXact c L x) = .ok y → y.posts.map (·.state) = x.posts.map (·.state)
 
 /-- witness: `* p` with posting `! A  1` (the candidate defect of DESIGN §9-9):
@@ -239,7 +240,7 @@ theorem C06.states_of_norm (c : Codec) (L : Layout) (x : PXact)
     uncleared, and otherwise those equal to the transaction's (every other posting re-reads with
     the transaction's state). -/
 theorem C06.state_marks_partial (c : Codec) (hc : c.Lawful) (L : Layout) (x : PXact)
-    (hx : xactOk c.toAmtCodec x = true)
+    (hx : xactOk c x = true)
     (hguard : x.state = 0 ∨ ∀ p ∈ x.posts, p.state = x.state) :
     ∀ y, parseXactText c (renderXact c L x) = .ok y → y.posts.map (·.state) = x.posts.map (·.state) := by
   intro y hy
@@ -290,7 +291,7 @@ def C06.accepted2 (p1 p2 : PPost) (a1 a2 : Qty) : Prop :=
     re-reading infers exactly the original amount. -/
 def C06.ElideSecondFull (L : Layout) : Prop :=
   ∀ (c : Codec), c.Lawful → ∀ (x : PXact) (p1 p2 : PPost) (a1 a2 : Qty),
-    xactOk c.toAmtCodec x = true → x.posts = [p1, p2] → p1.amount = some a1 → p2.amount = some a2 →
+    xactOk c x = true → x.posts = [p1, p2] → p1.amount = some a1 → p2.amount = some a2 →
     c.disp a1 = a1 → C06.accepted2 p1 p2 a1 a2 → elideSecond L x = true →
     ∃ q1 q2, (norm c L x).posts = [q1, q2] ∧ q2.amount = none ∧ C06.inferSecond q1 q2 = some a2
 
@@ -334,7 +335,7 @@ theorem C06.elide_second_amount_source_counterexample (h : Gen.printElideChecksM
     the original amount - same commodity, exact negation of the first. -/
 theorem C06.elide_second_amount_sound_partial (c : Codec) (hc : c.Lawful) (L : Layout) (x : PXact)
     (p1 p2 : PPost) (a1 a2 : Qty)
-    (hx : xactOk c.toAmtCodec x = true) (hps : x.posts = [p1, p2])
+    (hx : xactOk c x = true) (hps : x.posts = [p1, p2])
     (h1 : p1.amount = some a1) (h2 : p2.amount = some a2) (hex : c.disp a1 = a1)
     (hacc : C06.accepted2 p1 p2 a1 a2) (he : elideSecond L x = true)
     (hmb : p1.kind ≠ .virtual ∧ p2.kind ≠ .virtual) :
@@ -396,7 +397,7 @@ def C06.dispZero (c : AmtCodec) : Qty → Bool := fun q => decide ((c.disp q).q 
     reproduces every account's exact per-commodity balance. -/
 def C06.EquityThroughTextFull : Prop :=
   ∀ (c : Codec), c.Lawful → ∀ (L : Layout) (ps : List EPost),
-    xactOk c.toAmtCodec (equityXact (C06.dispZero c.toAmtCodec) ps) = true →
+    xactOk c (equityXact (C06.dispZero c.toAmtCodec) ps) = true →
     ∀ y, parseXactText c (renderXact c L (equityXact (C06.dispZero c.toAmtCodec) ps)) = .ok y →
     ∀ (a : Str) (k : Comm), a ≠ equityAccount → balOfP y.posts a k = balOf ps a k
 
@@ -417,7 +418,7 @@ theorem C06.equity_through_text_counterexample : ¬ C06.EquityThroughTextFull :=
     asked about is not the one whose amount print elides (print elides the second amount of a
     two-posting Opening Balances transaction). -/
 theorem C06.equity_through_text_partial (c : Codec) (hc : c.Lawful) (L : Layout) (ps : List EPost)
-    (hx : xactOk c.toAmtCodec (equityXact (C06.dispZero c.toAmtCodec) ps) = true)
+    (hx : xactOk c (equityXact (C06.dispZero c.toAmtCodec) ps) = true)
     (hexact : ∀ e ∈ collect ps, ∀ kq ∈ e.bal, c.disp { q := kq.2, comm := kq.1 } = { q := kq.2, comm := kq.1 })
     (hexactT : ∀ kq ∈ equityTotal (collect ps), c.disp { q := -kq.2, comm := kq.1 } = { q := -kq.2, comm := kq.1 })
     (a : Str) (k : Comm) (ha : a ≠ equityAccount)
@@ -447,6 +448,60 @@ theorem C06.equity_through_text_partial (c : Codec) (hc : c.Lawful) (L : Layout)
       subst hq
       exact hexactT kq hkq
 
+/-! ### with ledger's own amount and date text layers (C04, C14)
+
+`ledgerCodec env cur` prints amounts with `AmountText.printAmount` (amount_t::print) and reads them
+with `AmountText.parseAmount` (amount_t::parse) for the commodity pool `env`, prints dates with
+`DateParse.formatDate "%Y/%m/%d"` and reads them with `DateParse.parseDate`.  Its lawfulness is
+proved from C04's and C14's round-trip theorems (Lemmas/PrintInst.lean), so for this text layer the
+amount and date hypotheses are discharged; what remains in `xactOk` is decidable: free text
+well-formed, every amount in `ledgerDom` (symbol admitted by C04's `SymOK`, number within
+parse_quantity's buffer, printed text free of `;` `@` `=`, no negative display-zero), costs with
+a finite decimal expansion, dates in the years 1400..9999. -/
+
+theorem C06.ledger_text_layers_lawful (env : Comm → AmountText.CommInfo) (cur : Int × Int) :
+    (ledgerCodec env cur).Lawful := ledgerCodec_lawful env cur
+
+theorem C06.parse_render_ledger (env : Comm → AmountText.CommInfo) (cur : Int × Int) (L : Layout) (x : PXact)
+    (hx : xactOk (ledgerCodec env cur) x = true) :
+    parseXactText (ledgerCodec env cur) (renderXact (ledgerCodec env cur) L x) =
+      .ok (norm (ledgerCodec env cur) L x) :=
+  Print.parse_render _ (ledgerCodec_lawful env cur) L x hx
+
+theorem C06.render_fixpoint_ledger_partial (env : Comm → AmountText.CommInfo) (cur : Int × Int) (L : Layout) (x : PXact)
+    (hx : xactOk (ledgerCodec env cur) x = true) (hpad : trailingPad L x = false) :
+    renderXact (ledgerCodec env cur) L (norm (ledgerCodec env cur) L x) = renderXact (ledgerCodec env cur) L x :=
+  Print.render_fixpoint _ (ledgerCodec_lawful env cur) L x hx hpad
+
+/-- a pool with `$` (prefix, thousands marks, 2 decimals) and `EUR` (suffix, separated, 2 decimals). -/
+def C06.demoEnv : Comm → AmountText.CommInfo := fun k =>
+  if k = "$" then { style := { thousands := true }, prec := 2 }
+  else if k = "EUR" then { style := { suffixed := true, separated := true }, prec := 2 }
+  else {}
+
+/-- `2020/01/15=2020/01/20 * (c 1) Café Zoë  ; hn` with a cost, a virtual posting and an elided amount. -/
+def C06.demoLedger : PXact :=
+  { date := 18276, aux := some 18281, state := 1, code := some "c 1".toList, payee := "Café Zoë".toList,
+    note := some { lines := [" hn".toList], nextLine := false },
+    posts :=
+      [{ account := "Expenses:Food".toList, kind := .real, state := 1,
+         amount := some { q := 10, comm := "EUR" },
+         cost := some { given := { q := 12345 / 1000, comm := "$" }, inFull := false }, assigned := none,
+         note := some { lines := [" pn".toList], nextLine := false } },
+       { account := "Budget".toList, kind := .virtual, state := 1, amount := some { q := -12345678 / 100, comm := "$" },
+         cost := none, assigned := none, note := none },
+       { account := "Assets:Cash".toList, kind := .real, state := 1, amount := none, cost := none,
+         assigned := none, note := none }] }
+
+example : xactOk (ledgerCodec C06.demoEnv (2020, 1)) C06.demoLedger = true := by decide +kernel
+
+/-- what `ledger print` writes for it (checked against the binary by hand: same four lines). -/
+example : renderXact (ledgerCodec C06.demoEnv (2020, 1)) C06.sourceLayout C06.demoLedger =
+    ["2020/01/15=2020/01/20 * (c 1) Café Zoë  ; hn".toList,
+     "    Expenses:Food                          10.00 EUR @ $1.2345  ; pn".toList,
+     "    (Budget)                            $-123,456.78".toList,
+     "    Assets:Cash".toList] := by decide +kernel
+
 /-! ### non-vacuity: a concrete transaction with a cost, a virtual posting, posting states,
     notes on the transaction and on a posting, an aux date and a code satisfies the
     hypotheses; the theorems apply to it and their conclusions are checked by evaluation. -/
@@ -464,7 +519,7 @@ def C06.demo : PXact :=
        { account := "Assets:Cash".toList, kind := .real, state := 0, amount := none, cost := none,
          assigned := none, note := none }] }
 
-example : xactOk toyAmt C06.demo = true := by decide +kernel
+example : xactOk toyCodec C06.demo = true := by decide +kernel
 
 example : parseXactText toyCodec (renderXact toyCodec C06.sourceLayout C06.demo) =
     .ok (norm toyCodec C06.sourceLayout C06.demo) :=
